@@ -176,7 +176,13 @@ func (i *Informer) Resync(objs []runtime.Object) {
 			}
 		}
 	}
-	for _, old := range i.indexer.List() {
+	stale := i.indexer.List()
+	sort.Slice(stale, func(a, b int) bool {
+		ka, _ := cache.MetaNamespaceKeyFunc(stale[a])
+		kb, _ := cache.MetaNamespaceKeyFunc(stale[b])
+		return ka < kb
+	})
+	for _, old := range stale {
 		k, err := cache.MetaNamespaceKeyFunc(old)
 		if err != nil || seen[k] {
 			continue
